@@ -99,7 +99,7 @@ def gen_insts(rng, tier):
                     if rng.random() < 0.5:
                         pat.append(DYN)
                     else:
-                        pat.append(rng.choice([0, 1, 2, 3, 4, 5, 7] + ([iroot(M, R)] if R > 1 else [M])))
+                        pat.append(min(rng.choice([0, 1, 2, 3, 4, 5, 7] + ([iroot(M, R)] if R > 1 else [M])), (1 << 64) - 2))  # 2^64-1 is dynamic_extent
                 pats.append(tuple(pat))
             if R > 0 and tier != "quick":
                 pats.append(tuple(rng.choice([1, 2, 3, 4]) for _ in range(R)))     # all static
@@ -218,6 +218,28 @@ def gen_cases(rng, insts, tier):
             ext_sets.append(("box", fill(inst.pat, vals)))
         for es in boundary_exts(rng, t, inst.pat, nbnd):
             ext_sets.append(("boundary", es))
+        # "hidden product": a layout_stride mapping that is valid although the product of its non-zero
+        # extents is not representable (a zero extent resets the stride chain) - size() and friends must
+        # not evaluate that product in the signed index type
+        hidden = []
+        if inst.lay == 2 and R >= 3 and all(p == DYN for p in inst.pat):
+            big = iroot(M, 2) + 1
+            for z in (0, 1, R - 1):
+                es = [1] * R
+                ss = [1] * R
+                nz = [k for k in range(R) if k != z]
+                a, b = nz[0], nz[-1]
+                es[z] = 0; es[a] = big; es[b] = big
+                ss[a] = 1; ss[z] = big; ss[b] = 1
+                top = big
+                for k in nz[1:-1]:
+                    es[k] = 1; ss[k] = top      # one-element dimensions: any stride
+                if 1 + 2 * (big - 1) <= M:
+                    hidden.append((es, ss))
+        for es, ss in hidden:
+            toks = [inst.id, t, inst.lay, inst.pv, R] + list(inst.pat) + [1] + list(es) + list(ss) + [0]
+            cases.append((inst, toks, {"class": "hidden-product", "rank": R, "lay": 2, "t": t, "es": es, "ss": ss, "dpv": None,
+                                       "ctor": 1, "pv": inst.pv, "pat": list(inst.pat), "enum": False}))
         for cls, es in ext_sets:
             if not all(0 <= e <= M for e in es) or prod1(es) > M:
                 continue
@@ -298,61 +320,127 @@ def ints(s):
     return [] if s in ("-", "", None) else [int(x) for x in s.split(",")]
 
 
+def san_summary(stderr):
+    for l in stderr.splitlines():
+        if "runtime error" in l or "ERROR: AddressSanitizer" in l or "Assertion" in l:
+            return l.strip()[:400]
+    return stderr.strip()[-300:]
+
+
+def run_resilient(exe, lines, workdir, tag, max_restarts=25):
+    """run exe on the case lines; when the process dies, attribute the death to the case that was being
+    executed (its id is printed before it runs) and continue with the cases after it.
+    returns (list of output line or None per case, {case index: crash info})"""
+    outs = [None] * len(lines)
+    crashes = {}
+    start = 0
+    env = dict(os.environ)
+    env["UBSAN_OPTIONS"] = "print_stacktrace=1:halt_on_error=1"
+    env["ASAN_OPTIONS"] = "detect_leaks=0"
+    restarts = 0
+    while start < len(lines):
+        cf = os.path.join(workdir, "part-%s.txt" % tag)
+        with open(cf, "w") as f:
+            f.write("\n".join(lines[start:]) + "\n")
+        rc, o, e = sh([exe, cf], timeout=1800, env=env)
+        ol = o.splitlines()
+        # a complete line has fields; the line being executed when the process died has only "M <n> "
+        done = 0
+        for l in ol:
+            if len(l.split()) > 2:
+                outs[start + done] = renumber(l, start + done)
+                done += 1
+            else:
+                break
+        if rc == 0 and done >= len(lines) - start:
+            break
+        if rc == 0:
+            # protocol problem: fewer lines than cases, no crash
+            break
+        idx = start + done
+        if idx >= len(lines):
+            break
+        crashes[idx] = {"rc": rc, "stderr": san_summary(e), "stderr_tail": e[-1500:]}
+        outs[idx] = ""
+        start = idx + 1
+        restarts += 1
+        if restarts > max_restarts:
+            break
+    return outs, crashes
+
+
+def renumber(line, n):
+    parts = line.split(" ", 2)
+    if len(parts) >= 2:
+        parts[1] = str(n)
+    return " ".join(parts)
+
+
+def cfg_class(cfg):
+    return "14" if cfg.endswith("14") else "std"
+
+
 def run_family(rep, insts, cases, configs, workdir, model_exe, shard_by_type=True):
     """build the TUs (one per index type and configuration), run model and implementation on the same
-    case files; returns list of result records: dict(inst, toks, meta, model:{}, impl:{cfg:{}|None}, raw)"""
+    case files; returns list of result records: dict(inst, toks, meta, model:{}, impl:{cfg:{}|None}, raw).
+    C++14 configurations only see left/right/stride instantiations (no padded layouts in C++14)."""
     os.makedirs(workdir, exist_ok=True)
-    by_t = {}
-    for c in cases:
-        by_t.setdefault(c[0].t, []).append(c)
-    jobs, jobmeta = [], []
-    for t, cs in sorted(by_t.items()):
-        used = sorted(set(c[0] for c in cs), key=lambda i: i.id)
-        src = tu_source(used)
-        for cfg in configs:
-            jobs.append(("map%d" % t, src, cfg))
-            jobmeta.append((t, cfg))
-    built = compile_many(jobs)
-    exes = {}
-    build_fail = []
-    for (t, cfg), (exe, log) in zip(jobmeta, built):
-        if exe is None:
-            build_fail.append((t, cfg, log))
-        exes[(t, cfg)] = exe
-    records = []
-    for t, cs in sorted(by_t.items()):
-        cf = os.path.join(workdir, "cases-%d.txt" % t)
-        with open(cf, "w") as f:
-            for (_, toks, _) in cs:
-                f.write("M " + " ".join(str(x) for x in toks) + "\n")
-        rc, mlines, merr = run_lines([model_exe, cf])
-        recs = []
-        for n, (inst, toks, meta) in enumerate(cs):
-            ml = mlines[n] if n < len(mlines) else ""
-            _, md = parse_line(ml)
-            recs.append({"inst": inst, "toks": toks, "meta": meta, "model": md, "impl": {}, "model_line": ml, "impl_line": {},
-                         "casefile": cf, "lineno": n})
-        for cfg in configs:
-            exe = exes.get((t, cfg))
+    records, build_fail = [], []
+    classes = sorted(set(cfg_class(c) for c in configs))
+    all_recs = {}
+    for cls in classes:
+        ccfgs = [c for c in configs if cfg_class(c) == cls]
+        ccases = [c for c in cases if cls == "std" or c[0].lay <= 2]
+        by_t = {}
+        for c in ccases:
+            by_t.setdefault(c[0].t, []).append(c)
+        jobs, jobmeta = [], []
+        for t, cs in sorted(by_t.items()):
+            used = sorted(set(c[0] for c in cs), key=lambda i: i.id)
+            src = tu_source(used)
+            for cfg in ccfgs:
+                jobs.append(("map%d" % t, src, cfg))
+                jobmeta.append((t, cfg))
+        built = compile_many(jobs)
+        exes = {}
+        for (t, cfg), (exe, log) in zip(jobmeta, built):
             if exe is None:
-                for r in recs:
-                    r["impl"][cfg] = None
-                continue
-            env = dict(os.environ)
-            env["UBSAN_OPTIONS"] = "print_stacktrace=1:halt_on_error=1"
-            env["ASAN_OPTIONS"] = "detect_leaks=0"
-            rc, o, e = sh([exe, cf], timeout=1800, env=env)
-            ilines = o.splitlines()
-            for n, r in enumerate(recs):
-                il = ilines[n] if n < len(ilines) else ""
-                _, idd = parse_line(il)
-                r["impl"][cfg] = idd
-                r["impl_line"][cfg] = il
-            if rc != 0:
-                # the run died: attribute to the first case without a complete line
-                n = len(ilines) - 1 if ilines and not ilines[-1].count("offs=") else len(ilines)
-                n = min(max(n, 0), len(recs) - 1)
-                recs[n]["crash"] = recs[n].get("crash", {})
-                recs[n]["crash"][cfg] = {"rc": rc, "stderr": e[-3000:]}
-        records += recs
+                build_fail.append((t, cfg, log))
+            exes[(t, cfg)] = exe
+        for t, cs in sorted(by_t.items()):
+            cf = os.path.join(workdir, "cases-%s-%d.txt" % (cls, t))
+            with open(cf, "w") as f:
+                for (_, toks, _) in cs:
+                    f.write("M " + " ".join(str(x) for x in toks) + "\n")
+            rc, mlines, merr = run_lines([model_exe, cf])
+            recs = []
+            for n, (inst, toks, meta) in enumerate(cs):
+                key = id(toks)
+                if key in all_recs:
+                    r = all_recs[key]
+                else:
+                    ml = mlines[n] if n < len(mlines) else ""
+                    _, md = parse_line(ml)
+                    r = {"inst": inst, "toks": toks, "meta": meta, "model": md, "impl": {}, "model_line": ml, "impl_line": {},
+                         "casefile": cf, "lineno": n}
+                    all_recs[key] = r
+                    records.append(r)
+                recs.append(r)
+            for cfg in ccfgs:
+                exe = exes.get((t, cfg))
+                if exe is None:
+                    for r in recs:
+                        r["impl"][cfg] = None
+                    continue
+                lines_all = open(cf).read().splitlines()
+                outs, crashes = run_resilient(exe, lines_all, workdir, "%s-%d-%s" % (cls, t, cfg))
+                for n, r in enumerate(recs):
+                    il = outs[n] if n < len(outs) and outs[n] is not None else ""
+                    _, idd = parse_line(il)
+                    r["impl"][cfg] = idd if outs[n] is not None else None
+                    r["impl_line"][cfg] = il
+                for n, info in crashes.items():
+                    recs[n]["impl"][cfg] = {}
+                    recs[n]["crash"] = recs[n].get("crash", {})
+                    recs[n]["crash"][cfg] = info
     return records, build_fail
